@@ -121,13 +121,31 @@ class PowerSums:
         if isinstance(e, ast.Call):
             name = self.ext_name(e) or ""
             args = e.args
+            if name in ("numpy.divide", "numpy.true_divide", "numpy.multiply") and len(args) == 2 and not e.keywords:
+                return self.eval(ast.BinOp(left=args[0], op=ast.Mult() if name == "numpy.multiply" else ast.Div(), right=args[1]), env)
             if name in ("numpy.sum", "builtins.sum", "sum") and args:
-                if any(k.arg == "axis" for k in e.keywords):
+                if any(k.arg == "axis" and not (isinstance(k.value, ast.Constant) and k.value.value is None) for k in e.keywords) or len(args) > 1:
                     raise Undecided("axis sum")
                 v = self.eval(args[0], env)
                 if isinstance(v, Vec):
                     return v.c * self.S(v.p)
                 raise Undecided("sum of a scalar")
+            red = name if name in ("numpy.mean", "numpy.max", "numpy.amax", "numpy.min", "numpy.amin", "builtins.max", "builtins.min") else None
+            red_arg = args[0] if (red and len(args) == 1) else None
+            if red is None and isinstance(e.func, ast.Attribute) and e.func.attr in ("mean", "max", "min") and not args:
+                red, red_arg = "numpy." + e.func.attr, e.func.value
+            if red is not None and red_arg is not None and not any(k.arg == "axis" and not (isinstance(k.value, ast.Constant) and k.value.value is None) for k in e.keywords):
+                v = self.eval(red_arg, env)
+                if isinstance(v, Vec):
+                    if red.endswith("mean"):
+                        return v.c * self.S(v.p) / self.N
+                    # the largest / smallest entry is not a power sum: an independent positive symbol of the same
+                    # homogeneity (it cancels exactly where the expression does not depend on it)
+                    which = "Wmax" if red.endswith(("max", "amax")) else "Wmin"
+                    if self.sp.nsimplify(v.p) > 0:
+                        return v.c * self.sym(which) ** v.p
+                    raise Undecided(f"{red} of a non-positive power of the weights")
+                raise Undecided(f"{red} of a scalar")
             if name in ("builtins.len", "len", "numpy.size") and args:
                 v = self.eval(args[0], env)
                 if isinstance(v, Vec):
@@ -220,3 +238,25 @@ def run_function_powersums(ps: PowerSums, fn: ast.FunctionDef, init_env: Dict[st
 
 def _exp_shifted(e, env, ps):
     return e
+
+
+
+def normalised_by_own_sum(ext_name, expr: ast.expr, vec_name: str):
+    """Is `expr`, read with `vec_name` an arbitrary positive vector w, the vector w / sum(w)?
+
+    True / False when the power-sum algebra decides it (any spelling: w / np.sum(w), w / w.sum(), np.divide(w, np.sum(w)),
+    w * (1 / np.sum(w)), np.sum(w, axis=None) ...; False e.g. for w / max(w), w / len(w), w / mean(w), w / sum(w**2)),
+    None when the expression is outside the algebra (the caller keeps its own reading then).  The second value is the
+    computed form, for the message."""
+    sp = ensure_sympy()
+    ps = PowerSums(ext_name)
+    try:
+        got = ps.eval(expr, {vec_name: Vec(sp.Integer(1), 1)})
+    except Undecided:
+        return None, None
+    except Exception:
+        return None, None
+    if not isinstance(got, Vec):
+        return False, str(got)
+    ok = sp.nsimplify(got.p) == 1 and sp.simplify(got.c - 1 / ps.S(1)) == 0
+    return bool(ok), f"{sp.simplify(got.c)} * w^{got.p}"
